@@ -241,6 +241,10 @@ def main():
     shapes.append([("F", 3)])
     for a, b in itertools.product(ent[1:4] + other, repeat=2):
         shapes.append([a, b])
+    # a field-less entry beside others (it has no key to align, and must not end the column computation)
+    for other_shape in ([("E", (3,))], [("E", (1, 2))], [("S",)], [("E", (1,)), ("E", (3,))]):
+        for pos in range(len(other_shape) + 1):
+            shapes.append(other_shape[:pos] + [("E", ())] + other_shape[pos:])
     if chk.tier == "thorough":
         for a, b, c in itertools.product([("E", (1, 2)), ("E", (3,)), ("S",), ("I",), ("F", 2)], repeat=3):
             shapes.append([a, b, c])
